@@ -302,7 +302,10 @@ RULE = ("stochastic model programs with pub/sub fan-out: 2-3 self-rescheduling h
         "unsubscribe themselves or others, subscribe others, fire further types, cancel events; SimTally, SimPersistent, SimCounter "
         "(also two statistics on one data stream) built in construct_model; every second program hands 2-4 SimEvent objects built "
         "before initialize (some before, some after the unrelated prior activity of the process) to schedule_event(event) from "
-        "construct_model / handlers, tied in time and priority with ordinary events; each program is executed by 5-6 child interpreters: "
+        "construct_model / handlers, tied in time and priority with ordinary events; every third program leaves the seeds to the "
+        "library (streams kept in a dict / StreamInformation for the life of the model, StreamSeedUpdater incl. fallback or "
+        "SimpleStreamUpdater, update_seeds(streams, replication number) in construct_model) and two of the children first make a "
+        "pilot run of the same replication on the same simulator, model and stream objects; each program is executed by 5-6 child interpreters: "
         "PYTHONHASHSEED 0 / 1 / 2 / a drawn 32-bit value / random; prior activity none / small / large / medium / very large (17 to 5000 event ids "
         "consumed, 0-40 event types, 0-25 listeners, 50-12345 objects allocated and half dropped, 0-3 other simulations run); "
         "uninterrupted, one cut, three cuts, steps and cuts mixed, and (every 6th program) stop() from a handler followed by start. "
@@ -383,7 +386,7 @@ def main(tier: str) -> int:
                 part, what = first_diff(ref["parts"], o["parts"])
                 bads.setdefault(f"run-differs-between-processes-{part}",
                                 (pi, f"child {vi} (PYTHONHASHSEED={job['hashseed']}, prior activity {job['job']['prior']}, "
-                                     f"commands {job['job']['case']['cmds'][1:]}, stop_at {job['job']['case'].get('stop_at')}) differs "
+                                     f"pilot run {job['job']['case'].get('pilot')}, commands {job['job']['case']['cmds'][1:]}, stop_at {job['job']['case'].get('stop_at')}) differs "
                                      f"from child 0 (PYTHONHASHSEED=0, no prior activity, uninterrupted): {what}", job))
         full0 = ref["full"]
         big_fan = False
@@ -464,7 +467,7 @@ def judge_program(clock, model, vseed, with_stop=True):
         if o["digest"] != ref["digest"]:
             part, what = first_diff(ref["parts"], o["parts"])
             return (f"run-differs-between-processes-{part}", f"child {vi} (PYTHONHASHSEED={job['hashseed']}, prior activity "
-                    f"{job['job']['prior']}, commands {job['job']['case']['cmds'][1:]}) differs from child 0: {what}", job)
+                    f"{job['job']['prior']}, pilot run {job['job']['case'].get('pilot')}, commands {job['job']['case']['cmds'][1:]}) differs from child 0: {what}", job)
     return None
 
 
